@@ -503,6 +503,7 @@ fn run_hilbert_list<const D: usize>(coords: &[[f64; D]], bounds: (f64, f64), nbi
                 }
                 if ok {
                     quantize_checks(coords, bounds, nbits, &qs, out, &rp);
+                    quantize_checks_f32(coords, bounds, nbits, out, &rp);
                     keys = Some((0..n).map(|k| (is[k], qs[k])).collect());
                 }
             }
@@ -566,6 +567,50 @@ fn run_hilbert_list<const D: usize>(coords: &[[f64; D]], bounds: (f64, f64), nbi
                     let ties_in_order = order.windows(2).all(|w| keys[w[0]] != keys[w[1]] || w[0] < w[1]);
                     out.count(if ties_in_order { "hilbert_sorted_indices/ties_in_input_order" } else { "hilbert_sorted_indices/ties_not_in_input_order(undocumented)" });
                 }
+            }
+        }
+    }
+}
+
+/// The same end-point / range / index contract for the `f32` instantiation (the crate's own Hilbert
+/// ordering uses 31 or 25 bits, more than an f32 mantissa holds): bounds and coordinates are rounded
+/// to f32, out-of-range coordinates clamp.
+fn quantize_checks_f32<const D: usize>(coords: &[[f64; D]], bounds: (f64, f64), nbits: u32, out: &mut Out, rp: &dyn Fn(&str) -> Value) {
+    let (lo, hi) = (bounds.0 as f32, bounds.1 as f32);
+    let extent = hi - lo;
+    if !(lo.is_finite() && hi.is_finite() && extent.is_finite() && extent > 0.0 && lo.abs() <= 1e30 && hi.abs() <= 1e30) {
+        out.count("hilbert_quantize_f32/contract_not_applicable(bounds)");
+        return;
+    }
+    let maxq = (1u32 << nbits) - 1;
+    let pts: Vec<[f32; D]> = std::iter::once([lo; D]).chain(std::iter::once([hi; D])).chain(coords.iter().take(6).map(|c| c.map(|x| x as f32))).collect();
+    let r = guard(|| pts.iter().map(|p| (hilbert_quantize(p, (lo, hi), nbits), hilbert_index(p, (lo, hi), nbits))).collect::<Vec<_>>());
+    let rs = match r {
+        Ok(v) => v,
+        Err(pi) => {
+            out.panic(P, &pi, "hilbert_quantize::<f32>", rp("hilbert_quantize"));
+            return;
+        }
+    };
+    out.count("hilbert_quantize_f32/checked");
+    for (k, (q, i)) in rs.iter().enumerate() {
+        let (Ok(q), Ok(i)) = (q, i) else { continue };
+        if q.iter().any(|x| *x > maxq) {
+            out.violation(P, "hilbert_quantize_f32/out_of_range", format!("hilbert_quantize::<f32>({:?}, ({:e}, {:e}), {}) = {:?} exceeds 2^bits-1 = {}", pts[k], lo, hi, nbits, q, maxq), rp("hilbert_quantize"));
+            return;
+        }
+        if k == 0 && *q != [0u32; D] {
+            out.violation(P, "hilbert_quantize_f32/min_not_zero", format!("hilbert_quantize::<f32>([{:e}; {}]) = {:?}, expected all 0 (bits {})", lo, D, q, nbits), rp("hilbert_quantize"));
+            return;
+        }
+        if k == 1 && *q != [maxq; D] {
+            out.violation(P, "hilbert_quantize_f32/max_not_top", format!("hilbert_quantize::<f32>([{:e}; {}]) = {:?}, expected all {} (bits {})", hi, D, q, maxq, nbits), rp("hilbert_quantize"));
+            return;
+        }
+        if let Ok(pre) = hilbert_indices_prequantized(&[*q], nbits) {
+            if pre.first() != Some(i) {
+                out.violation(P, "hilbert_f32/index_vs_prequantized", format!("hilbert_index::<f32>({:?}) = {} but the prequantized index of its cell {:?} = {:?} (bits {})", pts[k], i, q, pre.first(), nbits), rp("hilbert_index"));
+                return;
             }
         }
     }
